@@ -523,104 +523,127 @@ def copyChildren (fs : FS) (g : String) (S : Path) (df : String) : H5File → Li
           copyChildren fs g S df
             ⟨putRegion h.entries [x] (shiftOids h.next (getRegion hs.entries Q)), h.next + hs.next⟩ rest
 
+/-- canonical location the destination link will have (parent resolved, missing parents created) -/
+def destOf (fs : FS) (f : String) (dp : Path) : Option Path :=
+  match getFile fs f, dp.getLast? with
+  | some h, some x =>
+    match mkdirP fs f h [] dp.dropLast with
+    | .ok (_, P) => some (P ++ [x])
+    | .error _ => none
+  | _, _ => none
+
+/-- `src.copy(<object at (g, S)>, dst, dst_group)`: deep copy with fresh object ids -/
+def deepCopyTo (fs1 : FS) (g : String) (S : Path) (df : String) (dp : Path) : FS × Outcome :=
+  match getFile fs1 g with
+  | none => (fs1, .corner "unreachable")
+  | some hs =>
+    match lookupK hs.entries S with
+    | some (.group _ _) =>
+      placeAt fs1 df dp (fun h1 => (shiftOids h1.next (getRegion hs.entries S), h1.next + hs.next)) .runtime
+    | _ => (fs1, .corner "source is not a group")
+
+/-- same file, `link or rename`: `src[dst_group] = src[src_group]`, then `del src[src_group]` -/
+def hardLinkSame (fs1 : FS) (sf : String) (sp dp : Path) (rename : Bool) : FS × Outcome :=
+  match resolve fs1 sf sp with
+  | none => (fs1, .err .key)
+  | some (g, S) =>
+    if g ≠ sf then (fs1, .err .os) else            -- interfile hard links are not allowed
+    match getFile fs1 g with
+    | none => (fs1, .corner "unreachable")
+    | some hs =>
+      match lookupK hs.entries S with
+      | some (.group _ _) =>
+        match placeAt fs1 sf dp (fun h1 => (getRegion hs.entries S, h1.next)) .os with
+        | (fs2, .ok) =>
+          -- a hard link to a group placed inside that group makes the namespace cyclic
+          (match destOf fs1 sf dp with
+           | some D =>
+             if under S D then (fs2, .corner "hard link below its own target (cycle)") else
+             if rename then
+               match unlink fs2 sf sp with
+               | .ok fs3 => (fs3, .ok)
+               | .error o => (fs2, o)
+             else (fs2, .ok)
+           | none => (fs2, .corner "unreachable"))
+        | r => r
+      | _ => (fs1, .corner "source is not a group")
+
+/-- same file, `soft_link`: `src[dst_group] = h5py.SoftLink(src_group)` -/
+def softLinkSame (fs1 : FS) (sf : String) (sp dp : Path) : FS × Outcome :=
+  placeAt fs1 sf dp (fun h1 => ([([], .soft sp)], h1.next)) .os
+
+/-- same file, plain copy: `src.copy(src_group, dst_group)` -/
+def copySame (fs1 : FS) (sf : String) (sp dp : Path) : FS × Outcome :=
+  match resolve fs1 sf sp with
+  | none => (fs1, .err .runtime)
+  | some (g, S) => deepCopyTo fs1 g S sf dp
+
+/-- two files, `soft_link`: `dst[dst_group] = h5py.ExternalLink(src_path, src_group)` -/
+def extLink (fs1 : FS) (sf : String) (sp : Path) (df : String) (dp : Path) : FS × Outcome :=
+  placeAt fs1 df dp (fun h1 => ([([], .ext sf sp)], h1.next)) .runtime
+
+/-- two files, root destination: children one by one, then `dst["/"].attrs.update(src[src_group].attrs)` -/
+def copyToRoot (fs1 : FS) (g : String) (S : Path) (df : String) : FS × Outcome :=
+  match getFile fs1 g, getFile fs1 df with
+  | some hs, some hd =>
+    match lookupK hs.entries S with
+    | some (.group _ sattrs) =>
+      if g = df then (fs1, .corner "source reaches the destination file through a link") else
+      match lookupK hd.entries [] with
+      | some (.group o a) =>
+        if sharedOid hd.entries o then (fs1, .corner "root group is multiply linked") else
+        match copyChildren fs1 g S df hd (childNames hs.entries S) with
+        | (h1, .ok) =>
+          (setFile fs1 df ⟨setEntry h1.entries [] (.group o (attrsUpdate a sattrs)), h1.next⟩, .ok)
+        | (h1, o) => (setFile fs1 df h1, o)
+      | _ => (fs1, .corner "file without root group")
+    | _ => (fs1, .corner "source is not a group")
+  | _, _ => (fs1, .corner "unreachable")
+
+/-- two files, neither link flag: copy; `rename` is ignored by the code (finding D4, `v.d4`), the
+specification removes the source afterwards -/
+def copyCross (fs1 : FS) (v : Variant) (sf : String) (sp : Path) (df : String) (dp : Path) (rename : Bool) :
+    FS × Outcome :=
+  match resolve fs1 sf sp with
+  | none => (fs1, if dp = [] then .err .key else .err .runtime)
+  | some (g, S) =>
+    match (if dp = [] then copyToRoot fs1 g S df else deepCopyTo fs1 g S df dp) with
+    | (fs2, .ok) =>
+      if rename && !v.d4 then
+        match unlink fs2 sf sp with
+        | .ok fs3 => (fs3, .ok)
+        | .error o => (fs2, o)
+      else (fs2, .ok)
+    | r => r
+
+/-- the file system `_copy` works on once both files are open: the destination is truncated
+(mode "w") iff it is missing or `overwrite` is set -/
+def afterOpen (fs : FS) (df : String) (overwrite : Bool) : FS :=
+  if (getFile fs df).isNone || overwrite then setFile fs df emptyFile else fs
+
 /-- `fileops._copy(src_uri, dst_uri, overwrite, link, rename, soft_link)` on parsed URIs.
 `v.d4 = false` is the specification (`mv` removes the source also across files). -/
 def copyOp (fs : FS) (v : Variant) (sf : String) (sp : Path) (df : String) (dp : Path)
     (overwrite link rename soft : Bool) : FS × Outcome :=
   if (link && rename) || (link && soft) || (rename && soft) then (fs, .err .value) else
-  let dstW := (getFile fs df).isNone || overwrite
   -- `h5py.File(src_path, "r+" if same else "r")`
   match getFile fs sf with
   | none => (fs, .err .os)
   | some _ =>
     -- `h5py.File(dst_path, dst_write_mode)`: truncating a file that is already open fails
-    if dstW && sf = df then (fs, .err .os) else
-    let fs1 := if dstW then setFile fs df emptyFile else fs
+    if ((getFile fs df).isNone || overwrite) && sf = df then (fs, .err .os) else
+    let fs1 := afterOpen fs df overwrite
     match dstCorner fs1 df dp with
     | some why => (fs1, .corner why)
     | none =>
     if sf = df then
-      if link || rename then
-        -- `src[dst_group] = src[src_group]`, then `del src[src_group]`
-        match resolve fs1 sf sp with
-        | none => (fs1, .err .key)
-        | some (g, S) =>
-          if g ≠ sf then (fs1, .err .os) else            -- interfile hard links are not allowed
-          match getFile fs1 g with
-          | none => (fs1, .corner "unreachable")
-          | some hs =>
-            match lookupK hs.entries S with
-            | none => (fs1, .corner "unreachable")
-            | some (.group _ _) =>
-              let r := placeAt fs1 df dp (fun h1 => (getRegion hs.entries S, h1.next)) .os
-              match r with
-              | (fs2, .ok) =>
-                -- a hard link to a group placed inside that group makes the namespace cyclic
-                (match resolve fs2 df dp with
-                 | some (_, D) =>
-                   if under S D then (fs2, .corner "hard link below its own target (cycle)") else
-                   if rename then
-                     match unlink fs2 sf sp with
-                     | .ok fs3 => (fs3, .ok)
-                     | .error o => (fs2, o)
-                   else (fs2, .ok)
-                 | none => (fs2, .corner "unreachable"))
-              | r => r
-            | some _ => (fs1, .corner "source is not a group")
-      else if soft then
-        -- `src[dst_group] = h5py.SoftLink(src_group)`
-        placeAt fs1 df dp (fun h1 => ([([], .soft sp)], h1.next)) .os
-      else
-        -- `src.copy(src_group, dst_group)`
-        match resolve fs1 sf sp with
-        | none => (fs1, .err .runtime)
-        | some (g, S) =>
-          match getFile fs1 g with
-          | none => (fs1, .corner "unreachable")
-          | some hs =>
-            match lookupK hs.entries S with
-            | some (.group _ _) =>
-              placeAt fs1 df dp (fun h1 => (shiftOids h1.next (getRegion hs.entries S), h1.next + hs.next)) .runtime
-            | _ => (fs1, .corner "source is not a group")
+      if link || rename then hardLinkSame fs1 sf sp dp rename
+      else if soft then softLinkSame fs1 sf sp dp
+      else copySame fs1 sf sp dp
     else
       if link then (fs1, .err .os)               -- "Can't hard link between two different files."
-      else if soft then
-        -- `dst[dst_group] = h5py.ExternalLink(src_path, src_group)`
-        placeAt fs1 df dp (fun h1 => ([([], .ext sf sp)], h1.next)) .runtime
-      else
-        match resolve fs1 sf sp with
-        | none => (fs1, if dp = [] then .err .key else .err .runtime)
-        | some (g, S) =>
-          match getFile fs1 g, getFile fs1 df with
-          | some hs, some hd =>
-            match lookupK hs.entries S with
-            | some (.group _ sattrs) =>
-              let r : FS × Outcome :=
-                if dp = [] then
-                  -- root destination: children one by one, then `attrs.update`
-                  if g = df then (fs1, .corner "source reaches the destination file through a link") else
-                  match lookupK hd.entries [] with
-                  | some (.group o a) =>
-                    if sharedOid hd.entries o then (fs1, .corner "root group is multiply linked") else
-                    match copyChildren fs1 g S df hd (childNames hs.entries S) with
-                    | (h1, .ok) =>
-                      (setFile fs1 df ⟨setEntry h1.entries [] (.group o (attrsUpdate a sattrs)), h1.next⟩, .ok)
-                    | (h1, o) => (setFile fs1 df h1, o)
-                  | _ => (fs1, .corner "file without root group")
-                else
-                  -- `src.copy(src_group, dst, dst_group)`
-                  placeAt fs1 df dp (fun h1 => (shiftOids h1.next (getRegion hs.entries S), h1.next + hs.next)) .runtime
-              match r with
-              | (fs2, .ok) =>
-                if rename && !v.d4 then
-                  -- specification of `mv`: the source is gone afterwards
-                  match unlink fs2 sf sp with
-                  | .ok fs3 => (fs3, .ok)
-                  | .error o => (fs2, o)
-                else (fs2, .ok)
-              | r => r
-            | _ => (fs1, .corner "source is not a group")
-          | _, _ => (fs1, .corner "unreachable")
+      else if soft then extLink fs1 sf sp df dp
+      else copyCross fs1 v sf sp df dp rename
 
 def cp (fs : FS) (v : Variant) (sf : String) (sp : Path) (df : String) (dp : Path) (overwrite : Bool) :=
   copyOp fs v sf sp df dp overwrite false false false
